@@ -10,6 +10,7 @@
 -/
 import Sigverif.Lemmas.C20Text
 import Sigverif.Lemmas.C20Mod
+import Sigverif.Lemmas.C20Pipe
 namespace SV
 
 /-- star parameters carry no default (`inspect.Parameter` refuses one) -/
@@ -59,6 +60,49 @@ theorem read_sig_kwoargs (ua upo : Bool) (pk ko : List Param) (va vk : Option Pa
   rw [e]
   exact readSig_kwo ua upo pk ko va vk hsorted hvad hvkd
 
+/-- **the `kwoargs` spelling** (`use_modifiers_kwoargs`, with or without `use_modifiers_posoargs`; annotations written
+    natively): for every signature `pk ++ *va ++ ko ++ **vk` without positional-only parameters — any number of parameters
+    — `s(str(sig)[1:-1], …)` compiles the rearranged `def`, applies `modifiers.kwoargs(*kwoarg_n)` and ends with the
+    parameters of the signature: names, kinds, defaults, annotations; the keyword-only ones in the order
+    required-then-defaulted. -/
+theorem s_kwoargs (upo : Bool) (pk ko : List Param) (va vk : Option Param)
+    (hpk : ∀ p ∈ pk, p.kind = .pk) (hko : ∀ p ∈ ko, p.kind = .ko)
+    (hva : ∀ p ∈ va, p.kind = .vp) (hvk : ∀ p ∈ vk, p.kind = .vk)
+    (hsorted : pk = reqs pk ++ dfls pk) (hvad : ∀ v ∈ va, v.dflt = none) (hvkd : ∀ v ∈ vk, v.dflt = none)
+    (hn : ((pk ++ ko ++ va.toList ++ vk.toList).map (·.name)).Pairwise (· ≠ ·)) :
+    sParams false upo true (pieces (pk ++ va.toList ++ ko ++ vk.toList)) =
+      .ok ((pk ++ va.toList ++ (reqs ko ++ dfls ko) ++ vk.toList).map Param.bare) :=
+  sParams_kwo upo pk ko va vk hpk hko hva hvk hsorted hvad hvkd hn
+
+/-- … which is the signature itself **up to the order of keyword-only parameters**: the same parameters (a permutation),
+    and exactly the same list once the keyword-only ones are left out -/
+theorem s_kwoargs_up_to_kwo_order (pk ko : List Param) (va vk : Option Param)
+    (hpk : ∀ p ∈ pk, p.kind = .pk) (hko : ∀ p ∈ ko, p.kind = .ko)
+    (hva : ∀ p ∈ va, p.kind = .vp) (hvk : ∀ p ∈ vk, p.kind = .vk) :
+    let r := (pk ++ va.toList ++ (reqs ko ++ dfls ko) ++ vk.toList).map Param.bare
+    let s := (pk ++ va.toList ++ ko ++ vk.toList).map Param.bare
+    r.Perm s ∧ r.filter (fun p => p.kind ≠ .ko) = s.filter (fun p => p.kind ≠ .ko) := by
+  intro r s
+  have h2 : (reqs ko ++ dfls ko).Perm ko := by
+    unfold reqs dfls
+    have := List.filter_append_perm (fun p : Param => p.dflt.isNone) ko
+    simpa [Option.not_isNone] using this
+  refine ⟨List.Perm.map _ (List.Perm.append_right _ (List.Perm.append_left _ h2)), ?_⟩
+  have hnone : ∀ L : List Param, (∀ p ∈ L, p.kind = .ko) → (L.map Param.bare).filter (fun p => p.kind ≠ .ko) = [] := by
+    intro L hL
+    rw [List.filter_eq_nil_iff]
+    intro a ha
+    simp only [List.mem_map] at ha
+    obtain ⟨p, hp, rfl⟩ := ha
+    simp [Param.bare, hL p hp]
+  have hk1 : ∀ p ∈ reqs ko ++ dfls ko, p.kind = .ko := by
+    intro p hp
+    simp only [reqs, dfls, List.mem_append, List.mem_filter] at hp
+    rcases hp with ⟨h, _⟩ | ⟨h, _⟩ <;> exact hko p h
+  have hk2 : ∀ p ∈ reqs ko, p.kind = .ko := fun p hp => hk1 p (List.mem_append_left _ hp)
+  have hk3 : ∀ p ∈ dfls ko, p.kind = .ko := fun p hp => hk1 p (List.mem_append_right _ hp)
+  simp only [r, s, List.map_append, List.filter_append, hnone _ hk2, hnone _ hk3, hnone _ hko, List.append_nil]
+
 /-! non-vacuity: `(a, /, b: 40 = 3, *args, c, d=4, **kwargs)` -/
 def exT : List Param :=
   [⟨1, .po, none, none, .empty⟩, ⟨2, .pk, some 3, some 40, .empty⟩, ⟨11, .vp, none, none, .empty⟩,
@@ -83,5 +127,10 @@ example : (readSig false false true (pieces (exK ++ (some (⟨11, .vp, none, non
     (some (⟨12, .vk, none, none, .empty⟩ : Param)).toList))).params =
     [.par 0 1 none none, .par 0 4 (some 41) none, .par 0 2 (some 40) (some 3), .par 0 3 none (some 4),
      .par 1 11 none none, .par 2 12 none none] := by decide
+
+example : sParams false true true (pieces (exK ++ (some (⟨11, .vp, none, none, .empty⟩ : Param)).toList ++ exKo ++
+    (some (⟨12, .vk, none, none, .empty⟩ : Param)).toList)) =
+    .ok [⟨1, .pk, none, none, .empty⟩, ⟨2, .pk, some 3, some 40, .empty⟩, ⟨11, .vp, none, none, .empty⟩,
+         ⟨4, .ko, none, some 41, .empty⟩, ⟨3, .ko, some 4, none, .empty⟩, ⟨12, .vk, none, none, .empty⟩] := by rfl
 
 end SV
